@@ -18,7 +18,7 @@ PROPS = {
         ],
     },
     "C02": {
-        "suites": ["eval", "programs"],
+        "suites": ["eval", "programs", "pipeline"],
         "assumptions": [
             "model step/isValue are tied to evaluator.rs by comparing every intermediate term of every run",
             "BigInt arithmetic is Lean's Int (Int.tdiv for checked_div), tied by operands far beyond 64 bits",
@@ -43,8 +43,8 @@ PROPS = {
         "suites": ["pipeline", "programs", "unify"],
         "assumptions": ["progress is decided per program on the implementation (search) and by the stuck-term classification theorem on the model; subject reduction is not proved"],
     },
-    "C05": {"suites": ["programs", "unify"], "assumptions": ["completeness of the checker is decided per generated program (type-directed generator with its own expected type), not proved"]},
-    "C12": {"suites": ["unify"], "assumptions": ["soundness of unification w.r.t. conversion needs confluence and is not proved; the solutions are validated per run on the implementation"]},
+    "C05": {"suites": ["programs", "unify", "pipeline"], "assumptions": ["completeness of the checker is decided per generated program (type-directed generator with its own expected type), not proved"]},
+    "C12": {"suites": ["unify", "debruijn"], "assumptions": ["soundness of unification w.r.t. conversion needs confluence and is not proved; the solutions are validated per run on the implementation"]},
     "C18": {"suites": ["unify", "programs", "pipeline"], "assumptions": ["agreement with the closed program (wrapping a context into binders) is not proved; restoration is proved for the model and observed on the implementation for every call"]},
     "C13": {"suites": [], "extra": [c13_step],
             "rule": "launches of the real binary (fresh process, fresh hash seed) on corpus files and generated multi-diagnostic files; distinct = (file, mode) pairs",
@@ -56,10 +56,10 @@ PROPS = {
                             "the per-nonterminal cache hit/miss counters of the implementation (hook H1) are compared with the model's on every `parsestats` op"]},
     "C03": {"suites": ["pipeline", "programs", "unify"], "assumptions": ["every program the real checker accepts is re-checked by the independent Lean checker inferX on its zonked elaboration (translation validation per program); soundness of inferX w.r.t. declarative rules is pending", "an unresolved hole is an unknown compatible with anything"]},
     "C04": {"suites": ["programs", "pipeline", "unify"], "assumptions": ["the value of every terminating accepted program is typed by the independent checker and compared with the reported type; preservation is not proved"]},
-    "C06": {"suites": ["programs", "unify"], "assumptions": ["coincidence of conversion with equality of normal forms and closure under reduction need confluence and are not proved; they are decided per program on the implementation"]},
+    "C06": {"suites": ["programs", "unify", "pipeline"], "assumptions": ["coincidence of conversion with equality of normal forms and closure under reduction need confluence and are not proved; they are decided per program on the implementation"]},
     "C15": {"suites": ["listing", "parser"], "assumptions": ["Unicode whitespace classification is a parameter of the model, supplied per input", "ranges of scoping/type diagnostics are compared through hook H3 (ranges passed to listing) in the parser suite"]},
     "C16": {"suites": ["print", "programs"], "assumptions": ["the printed text is re-read by the real tokenizer and parser (oracle on the implementation); the proof that the printed token list derives the term in grammar.y is pending"]},
-    "C19": {"suites": ["programs"], "assumptions": ["acceptance-invariance of the rewrites is not proved (needs the T3 statements of C06/C12); it is searched: every rewrite kind at random sites of every generated program, outcome compared through the real pipeline"]},
+    "C19": {"suites": ["programs", "pipeline"], "assumptions": ["acceptance-invariance of the rewrites is not proved (needs the T3 statements of C06/C12); it is searched: every rewrite kind at random sites of every generated program, outcome compared through the real pipeline"]},
     "C07": {"suites": ["parser", "programs"], "assumptions": ["completeness of the parser w.r.t. grammar.y and unambiguity of the grammar are not proved; watched by enumeration (Earley recogniser over the grammar file, every token sequence up to a length bound, every generated sentence)"]},
     "C08": {"suites": ["parser", "programs"], "assumptions": ["the specification toDB (binder stack) is part of the trusted statements; the reference resolver in the harness (resolve_ref.rs) is an independent third implementation"]},
 }
